@@ -116,10 +116,14 @@ func stageStop(raw json.RawMessage) Result {
 		}
 	}
 	refEff := normEffects(stripSummary(ref.Effects))
+	// the stopped outcomes of the specification, without and with the test summary that may follow them
 	stoppedSet := map[string]bool{}
+	stoppedFull := map[string]bool{}
 	for _, s := range c.Stopped {
 		b, _ := json.Marshal(normEffects(stripSummary(toEffects(decode(s).([]any)))))
 		stoppedSet[string(b)] = true
+		b, _ = json.Marshal(normEffects(toEffects(decode(s).([]any))))
+		stoppedFull[string(b)] = true
 	}
 	distinctPrefix := map[int]bool{}
 	for _, k := range ks {
@@ -153,6 +157,11 @@ func stageStop(raw json.RawMessage) Result {
 			b, _ := json.Marshal(eff)
 			if !stoppedSet[string(b)] {
 				return Result{OK: false, Obs: obs, Diff: tag + "effects " + effectString(eff) + " are not a stopped outcome of the specification"}
+			}
+			// only the summary of the tests run so far may follow
+			full := normEffects(o.Effects)
+			if b, _ := json.Marshal(full); !stoppedFull[string(b)] {
+				return Result{OK: false, Obs: obs, Diff: tag + "effects with the test summary " + effectString(full) + " are not a stopped outcome of the specification (the summary must count the tests run so far)"}
 			}
 		}
 		distinctPrefix[len(eff)] = true
